@@ -814,7 +814,7 @@ def gen_worklist_program(rng: random.Random, profile: dict) -> dict:
     if rng.random() < profile.get("p_fail", 0.2):
         k = rng.choice(profile.get("fail_kinds", ["transfer"] * 3 + ["aspirate", "dispense", "distribute", "distribute"]))
         if k == "transfer":
-            op = b.op_transfer(fail=rng.choice(["underflow", "overflow", "toolarge", "kw", "wash", "mode", "label", "length", "negative"]))
+            op = b.op_transfer(fail=rng.choice(profile.get("transfer_faults", ["underflow", "overflow", "toolarge", "kw", "wash", "mode", "label", "length", "negative"])))
         elif k in ("aspirate", "dispense"):
             mk = b.op_aspirate if k == "aspirate" else b.op_dispense
             x = rng.random()
